@@ -118,7 +118,7 @@ pub fn gen_e2e(r: &mut Rng, thorough: bool, cx: &mut Ctx) {
         for k in 0..(if thorough { 10000 } else { 500 }) {
             let own_a: u16 = match r.below(5) { 0 => 0xffff, 1 => 1, _ => r.u16b() as u16 };
             let own_b: u16 = match r.below(6) { 0 => 0xffff, 1 => 2, 2 => own_a, _ => r.u16b() as u16 };
-            let gaps: Vec<u64> = match k % 5 { 0 => vec![], 1 => vec![1], 2 => vec![0, 0, 2], 3 => (0..r.range(1, 7)).map(|_| r.below(3)).collect(), _ => vec![0, 0, 0, 0, 3] };
+            let gaps: Vec<u64> = if k % 25 == 9 { vec![0, 150] } else { match k % 5 { 0 => vec![], 1 => vec![1], 2 => vec![0, 0, 2], 3 => (0..r.range(1, 7)).map(|_| r.below(3)).collect(), _ => vec![0, 0, 0, 0, 3] } };     // now and then a long silence between two frames / bytes
             let mut l = vec![link, own_a as u64, own_b as u64, gaps.len() as u64]; l.extend(&gaps);
             let nh = r.below(5); l.push(nh);
             for i in 0..nh { l.push(4); l.push(700 + i); l.push(r.chance(1, 3) as u64); l.push(r.chance(1, 4) as u64); l.push(match r.below(4) { 0 => 1, 1 => 2, _ => 0 }); }
